@@ -26,6 +26,8 @@ OBLIGATIONS = [
     (P + "buddy_step_normal", "buddy allocator: malloc and free keep the normal form (no two free buddies side by side), whichever block is chosen"),
     (P + "buddy_used_after_alloc", "buddy allocator: malloc adds exactly its block to the blocks in use"),
     (P + "buddy_used_after_free", "buddy allocator: free removes exactly the freed block"),
+    (P + "malloc_order_ge_min", "buddy allocator: every block malloc hands out has order >= minBits (room for struct page); needs the clamp in malloc (defect fixed)"),
+    (P + "malloc_zero_counterexample", "without the clamp malloc(0) gets an order-4 block, smaller than struct page (the defect as found)"),
     (P + "free_all_restores", "buddy allocator: after any malloc/free sequence with no block left in use the arena equals the freshly constructed one (fill, empty, refill indefinitely)"),
 ]
 
